@@ -226,6 +226,12 @@ impl NAPTR {
             .map(ToString::to_string)
             .map(|s| s.into_bytes().into_boxed_slice())?;
 
+        if flags.len() > 255 || service.len() > 255 || regexp.len() > 255 {
+            return Err(ParseError::Message(
+                "character-string longer than 255 octets",
+            ));
+        }
+
         let replacement: Name = tokens
             .next()
             .ok_or_else(|| ParseError::MissingToken("replacement".to_string()))
